@@ -235,7 +235,10 @@ def jobs(tier):
     js += [(unit_o2e, ("area", k)) for k in D.all_area_keys()]
     js += [(unit_o2e, ("frame", "Command")), (unit_o2e, ("frame", "Response"))]
     # events -> object: trie insertion by the step rule, conversion one level per concrete type
-    js += [(unit_e2d_steps, ()), (unit_to_obj_dispatch, ())]
+    js += [(unit_e2d_steps, ()), (unit_to_obj_dispatch, ()), (unit_d2o_partial, ())]
+    # decoder and events->object both synthesize the encrypted parameter class: they agree only through the memo (C12/MEMO)
+    from checks import c12
+    js += [(c12.unit_memo, ())]
     js += [(unit_d2o, ("struct", n)) for n in sorted(L0["structs"])]
     js += [(unit_d2o, ("tpm2b", n)) for n in sorted(L0["tpm2b"])]
     js += [(unit_d2o, ("union", n)) for n in sorted(L0["unions"])]
@@ -251,7 +254,7 @@ def jobs(tier):
 
 
 def keep(name, ob):
-    return name.startswith("C11/") or "/outcome/" in name or ob.get("kind") in ("frame", "bounded-bookkeeping") or name.endswith("no-internal-error")
+    return name.startswith("C11/") or name.startswith("C12/MEMO") or "/outcome/" in name or ob.get("kind") in ("frame", "bounded-bookkeeping") or name.endswith("no-internal-error")
 
 
 def run(tier, seed, only=None):
@@ -446,6 +449,46 @@ def unit_d2o(kind, key):
             ob(f"{vname}{'/' + ccn2 if ccn2 else ''}/object-is-the-type-filled-with-the-converted-entries", okobj, f"{type(obj).__name__}")
             if key == "Response":
                 ob(f"{vname}/{ccn2}/response-remembers-its-command-code", getattr(obj, "_command_code", None) is cc)
+    return u
+
+
+def unit_d2o_partial():
+    """messages with absent optional parts: the members that are present are converted, nothing else is looked up
+    (a failed response needs no command code; a command without sessions has no session members)"""
+    from pyvc.explore import Ctx
+    from tpmstream.spec.commands import Command, Response
+
+    O = mod("tpmstream.common.object")
+    u = UnitResult("C11/D2O/partial")
+    u.functions = ["tpmstream.common.object:_dict_to_obj"]
+
+    def ob(name, ok, detail=""):
+        u.obligations.append({"name": f"C11/D2O/partial/{name}", "kind": "post", "site": "object.py:_dict_to_obj", "status": "proved" if ok else "refuted", "backend": "evaluation", "seconds": 0, "model": None, "detail": detail})
+
+    def run(T, d, cc):
+        ctx = Ctx()
+        calls = []
+
+        def to_obj_stub(I, args, kwargs):
+            calls.append(args[0])
+            return ("CONVERTED", args[1])
+            yield
+
+        I = Interp(ctx, stubs={O._to_obj: to_obj_stub}, force=[O._dict_to_obj])
+        try:
+            return run_sync(I.call(O._dict_to_obj, (T, d), {"command_code": cc})), calls, None
+        except PyExc as e:
+            return None, calls, e.exc
+
+    hdr = {"tag": object(), "responseSize": object(), "responseCode": object()}
+    for ccname, cc in (("no-command-code", None), ("GetRandom", W.cc_member("GetRandom"))):
+        obj, calls, exc = run(Response, dict(hdr), cc)
+        ok = exc is None and obj is not None and all(getattr(obj, k) == ("CONVERTED", v) for k, v in hdr.items()) and obj.handles is None and obj.parameters is None and len(calls) == 3
+        ob(f"failed-response-header-only/{ccname}", ok, f"raised {exc!r}" if exc else f"{len(calls)} conversions")
+    cmd = {"tag": object(), "commandSize": object(), "commandCode": W.cc_member("GetRandom"), "handles": object(), "parameters": object()}
+    obj, calls, exc = run(Command, dict(cmd), None)
+    ok = exc is None and obj is not None and obj.authSize is None and obj.authorizationArea is None and len(calls) == 5
+    ob("command-without-sessions", ok, f"raised {exc!r}" if exc else f"{len(calls)} conversions")
     return u
 
 
